@@ -37,7 +37,14 @@ PairMutations(b) ==
       prm == {k \in 1..Len(recs) : recs[k].kind = "param"}
   IN {[kind |-> "set", pos |-> <<recs[k].pos, recs[k].offPos, recs[k].offPos + 1>>, val |-> <<v, w[1], w[2]>>] : k \in prm, v \in {1, 127, 255}, w \in {<<0, 0>>, <<255, 255>>}}
      \cup {[kind |-> "set", pos |-> <<recs[k].offPos + 3, recs[k].offPos + 4>>, val |-> <<v, w>>] : k \in prm, v \in {1, 7, 8, 255}, w \in {0, 255}}
-Mutations(b) == Truncations(b) \cup Overwrites(b) \cup FieldMutations(b) \cup PairMutations(b)
+\* the dimension field as a whole: k dimensions (1..7) taken from boundary patterns (all 255; all 255 with a zero at the end, in the middle, at the start)
+DimPattern(k, z) == [i \in 1..k |-> IF i = z THEN 0 ELSE 255]
+DimsMutations(b) ==
+  LET ps == BlockSize * (B(b, 0) - 1)
+      recs == Chain(b, ps + 4, MaxRecords)
+      prm == {k \in 1..Len(recs) : recs[k].kind = "param"}
+  IN {[kind |-> "set", pos |-> [i \in 1..(n + 1) |-> recs[k].offPos + 2 + i], val |-> <<n>> \o DimPattern(n, z)] : k \in prm, n \in {2, 4, 7}, z \in {0, 1, 2, 4, 7}}
+Mutations(b) == Truncations(b) \cup Overwrites(b) \cup FieldMutations(b) \cup PairMutations(b) \cup DimsMutations(b)
 \* a mutation that changes nothing is not a corruption
 Changes(b, m) == IF m.kind = "trunc" THEN m.n < Len(b) ELSE \E i \in 1..Len(m.pos) : m.pos[i] < Len(b) /\ B(b, m.pos[i]) # m.val[i]
 Emit == \A k \in 1..NSeeds : LET b == SeedBytes(k) IN \A m \in {x \in Mutations(b) : Changes(b, x)} : PrintT(ToJson([seed |-> k] @@ m))
